@@ -13,9 +13,5 @@ func lookup(id string) *property {
 
 const min = time.Minute
 
-var registry = []property{
-	{id: "C15", parts: []part{
-		{name: "encoding", pkg: "./c15", run: "^TestEncoding$",
-			shards: [2]int{8, 16}, checks: [2]int{25000, 1250000}, timeout: [2]time.Duration{2 * min, 20 * min}},
-	}},
-}
+// registry is filled by the init functions of the reg_cNN.go files.
+var registry []property
